@@ -87,12 +87,12 @@ OPNMIDI_EXPORT int opn2_setNumChips(OPN2_MIDIPlayer *device, int numChips)
 
     MidiPlayer *play = GET_MIDI_PLAYER(device);
     assert(play);
-    play->m_setup.numChips = static_cast<unsigned int>(numChips);
-    if(play->m_setup.numChips < 1 || play->m_setup.numChips > OPN_MAX_CHIPS)
+    if(numChips < 1 || numChips > OPN_MAX_CHIPS)
     {
         play->setErrorString("number of chips may only be 1.." OPN_MAX_CHIPS_STR ".\n");
         return -1;
     }
+    play->m_setup.numChips = static_cast<unsigned int>(numChips);
 
     Synth &synth = *play->m_synth;
     if(!synth.setupLocked())
